@@ -18,7 +18,7 @@ Fixpoint replay_C03 (st : ostate) (ops : list sop) (blocks : list (Z * replica))
   | [], [] => true
   | o :: ops', (_, r) :: blocks' =>
       (match o with
-       | Pull d s _ => delivered (get s (o_sys st)) r
+       | Pull d s _ => delivered (get s (o_sys st)) r && refs_delivered (get s (o_sys st)) r
        | _ => true
        end) && replay_C03 (observe (op_peer o) r st) ops' blocks'
   | _, _ => false
@@ -65,8 +65,24 @@ Definition spec_C03 (c : c03case) (obs : list Z) : bool :=
    (ad91329, bb1bffb) and no longer exist in the model; what is left is
    4  a pull did not select every day on which the source holds something the receiver needs
       (history-hash shortcut, C09 class 4) *)
+(* 5  a pull ends with the receiver lacking a reference the source shows although it holds both rows and
+      no deletion record covering it: references travel only with a row version that passes
+      filter_existing, so the references of the LOSING version of a row (concurrent reference changes of
+      one row on two peers) and references the receiver removed locally are never offered again *)
+Fixpoint run_refs_ok (S : sys) (ops : list sop) : bool :=
+  match ops with
+  | [] => true
+  | o :: rest =>
+      let S' := fst (fst (step S o)) in
+      (match o with Pull d s _ => refs_delivered (get s S) (get d S') | _ => true end) && run_refs_ok S' rest
+  end.
+(* 6  a reference deletion record removes only the exactly named version of the reference (same creation
+      date): an older version of the same reference, added concurrently on another peer, stays on the peer
+      that holds it, below the record — the other members never show it again *)
 Definition known_C03 (c : c03case) : list Z :=
-  if run_complete (init_sys (c03_n c)) (c03_ops c) then [] else [4].
+  (if run_complete (init_sys (c03_n c)) (c03_ops c) then [] else [4]) ++
+  (if run_refs_ok (init_sys (c03_n c)) (c03_ops c) then [] else [5]) ++
+  (if run_refs_coherent (init_sys (c03_n c)) (c03_ops c) then [] else [6]).
 
 (* the model's own view of "the last rounds move nothing" (hypothesis of C03_outside_known): the final
    operations are pulls, and every day they select, exchanged with the receiver as it is, requests no
